@@ -673,6 +673,12 @@ impl Property for C13 {
             blocks.push(Block::SetCcr(0x00));
             blocks.push(Block::Delay(40));
         }
+        // 1 run in 40 ends in an instruction whose first word is the last mapped word of a region: its operand fetch
+        // fails, run() must return that error without charging the instruction
+        if rng.chance(1, 40) {
+            let word = *rng.pick(&[0x7a00u16, 0x7a06, 0x5a00, 0x5e00, 0x6b20, 0x6b00, 0x6a20, 0x6a2c, 0x7900, 0x7904, 0x5800, 0x0100, 0x0140, 0x6f60, 0x6e6c, 0x7800, 0x01f0, 0x7c60]);
+            blocks.push(Block::EdgeExec { word, edge: rng.below(2) as u8 });
+        }
         let guest = GuestSpec {
             blocks,
             handlers,
@@ -683,7 +689,8 @@ impl Property for C13 {
             sub_delay: rng.range(1, 20) as u16,
             init_ccr: Some(if masked { 0x80 | rng.u8() } else { rng.u8() & 0x7f }),
             stack_off: if rng.chance(1, 2) { 0 } else { 4 * rng.below(64) as u16 },
-            exit_style: if rng.chance(1, 2) { 0 } else { rng.below(9) as u8 },
+            // 9: the program transfers to exit + 1 (not the exit address); 10: an odd exit address
+            exit_style: if rng.chance(1, 2) { 0 } else { rng.below(11) as u8 },
         };
         let est = super::c10::estimate_iters(&guest);
         let print_msgs = rng.chance(1, 8);
